@@ -539,6 +539,38 @@ struct svit env_remove__svit_svit_pcE (struct svit first, struct svit last, cons
   return res;
 }
 
+/* std::remove_if (first, last, pred): as std::remove; the caller's predicate (recorded: CMP_PRED is the state of the copy that was
+   passed) may throw at any element; it is applied to live elements of [first, last) only */
+int CMP_PRED;
+struct svit env_remove_if__svit_svit_P (struct svit first, struct svit last, struct Pred pred)
+{
+  struct svit res; res.m_ptr = last.m_ptr;
+  __CPROVER_assert (first.m_ptr == last.m_ptr || (SAMEOBJ (first.m_ptr, last.m_ptr) && OFF (first.m_ptr) <= OFF (last.m_ptr) && ALIGNED (OFF (last.m_ptr) - OFF (first.m_ptr))), "[C16] std::remove_if: [first, last) is not a valid range");
+  unsigned long nbytes = (first.m_ptr == last.m_ptr) ? 0 : OFF (last.m_ptr) - OFF (first.m_ptr);
+  cmp_calls++; CMP_KIND = CMP_REMOVE_IF; CMP_F1 = first.m_ptr; CMP_L1 = last.m_ptr; CMP_F2 = 0; CMP_L2 = 0; CMP_PRED = pred.state;
+  if (nbytes == 0) { REM_RESULT = last.m_ptr; return res; }
+  __CPROVER_assert (__CPROVER_w_ok (first.m_ptr, nbytes), "[C03,C16] std::remove_if writes outside the container's elements");
+#define REMIF_LIVE1(i) __CPROVER_assert (!(IN_PTRS (WP[i], first.m_ptr, last.m_ptr) && RAW (i)), "[C03,C16] std::remove_if reads storage that holds no live element");
+  FORALLW (REMIF_LIVE1)
+  if (nondet_bool ())
+    {
+      /* a throwing predicate / move assignment: elements stay live, values unspecified */
+      FORALLW (REM_HAVOC1)
+      THROW (EXC_ELEMENT); REM_RESULT = last.m_ptr; return res;
+    }
+  unsigned long keep = nondet_ulong ();
+  __CPROVER_assume (keep <= DIVESZ (nbytes));
+  FORALLW (REM_HAVOC1)
+  used_kinds |= K_ASSIGN_MOVE;
+  res.m_ptr = first.m_ptr + keep; REM_RESULT = res.m_ptr;
+  return res;
+}
+
+/* std::initializer_list<value_type> ([support.initlist.access]): begin () is the first element of the backing array, end () is begin () + size () */
+const Elem *env_IL_begin__v (const struct IList *il) { return il->b; }
+const Elem *env_IL_end__v (const struct IList *il) { return il->n == 0 ? il->b : il->b + il->n; }
+unsigned long env_IL_size__v (const struct IList *il) { return il->n; }
+
 /* generator: the k-th call yields the abstract value GEN_BASE + k */
 int GEN_BASE;
 void env_op_call__pG_out (struct Gen *g, Elem *out)
